@@ -124,6 +124,7 @@ pub fn run_one(p: &Profile, seed: u64, index: u64, keep_trace: bool, want_sample
 
 fn run_one_inner(p: &Profile, seed: u64, index: u64, keep_trace: bool, want_sample: bool, focus: Option<&'static str>) -> RunSummary {
     let run_seed = mix(seed, index);
+    let p = if !p.mix.is_empty() && index % 2 == 1 { &p.mix[((index / 2) % p.mix.len() as u64) as usize] } else { p };
     let d = Driver::new(p, run_seed, focus);
     let out_world_stats;
     let trace_hash;
